@@ -297,7 +297,9 @@ class HybridClass(metaclass=MetaHybridClass):
         defaults = {}
         for field in obj._XoStruct._fields:
             try:
-                defaults[field.name] = field.get_default()
+                defaults[obj._rename.get(field.name, field.name)] = (
+                    field.get_default()
+                )
             except (TypeError, ValueError):
                 # The above can fail with different error types
                 # if a field type is dynamic.
